@@ -389,6 +389,20 @@ impl State {
         }
     }
 
+    /// Returns true when the send half is still waiting to send the (final)
+    /// headers, i.e. `send_open` has yet to be called on a stream that the
+    /// local side is allowed to respond on.
+    pub fn is_send_awaiting_headers(&self) -> bool {
+        matches!(
+            self.inner,
+            Open {
+                local: AwaitingHeaders,
+                ..
+            } | HalfClosedRemote(AwaitingHeaders)
+                | ReservedLocal
+        )
+    }
+
     pub fn is_send_streaming(&self) -> bool {
         matches!(
             self.inner,
